@@ -1,0 +1,31 @@
+//go:build verif
+
+// Contracts for govc (see /verif/DESIGN.md). This file contains only
+// comments; it is compiled only under the `verif` build tag.
+
+package expect
+
+//@ extern (*bufio.Reader).ReadBytes(b, delim) returns (line, err)
+//@   modifies nothing
+
+//@ func JS returns s
+//@   trusted
+//@   pure
+
+// The verdict function of one step (the inner function literal of the stdout
+// reader goroutine in Session.Run). `need` counts the expected (non-inverted)
+// outputs not yet seen. The clauses below say that every decrement of `need`
+// marks the expectation it is justified by as matched IN THE SESSION (so that
+// the same expectation can never justify a second decrement: the loop skips
+// marked expectations). With the counting argument of DESIGN.md this gives:
+// need == 0 only when every expected output was matched by some line.
+//@ func (*Session).Run$4$1 returns err
+//@   safety C19
+//@   requires iop != nil && s != nil && *s != nil && out != nil && *out != nil && ctx != nil
+//@   requires (*s).ParsePatterns ==> forall j int :: 0 <= j && j < len(iop.OutputSet) ==> is(iop.OutputSet[j].Pattern, string)
+//@   loop 2 ghostfn nb(rangeindex + 1) = need
+//@   loop 2 invariant[C19] marked: forall j rawint :: 0 <= j && j < rangeindex && nb(j + 1) < nb(j) ==> iop.OutputSet[j].Bindingss != nil
+//@   loop 2 invariant[C19] lastmarked: rangeindex >= 0 && need < nb(rangeindex) ==> iop.OutputSet[rangeindex].Bindingss != nil
+//@   loop 2 invariant[C19] onlydown: rangeindex >= 0 ==> need <= nb(rangeindex) && nb(rangeindex) <= need + 1
+//@   loop 2 invariant[C19] noninverted: rangeindex >= 0 && need < nb(rangeindex) ==> !iop.OutputSet[rangeindex].Inverted
+//@   loop 2 invariant[C19] accepted: rangeindex >= 0 && need < nb(rangeindex) ==> len(iop.OutputSet[rangeindex].Bindingss) > 0 && iop.OutputSet[rangeindex].Bindingss[0] != nil
